@@ -234,8 +234,11 @@ def write_gmx_topology(system,
         {molecules}
     """
     )
+    # A moltype can appear in more than one group of successive molecules; its
+    # ITP file must be included only once. The dict keeps the order.
+    included_moltypes = dict.fromkeys(molecule_type for molecule_type, _ in moltype_count)
     include_string = include_string + "\n".join(
-        '#include "{}.itp"'.format(molecule_type) for molecule_type, _ in moltype_count
+        '#include "{}.itp"'.format(molecule_type) for molecule_type in included_moltypes
     )
     molecule_string = "\n".join(
         "{mtype:<{length}}    {num}".format(
